@@ -250,7 +250,9 @@ def render_module(spec, m: int, src_value=None) -> str:
         if deco_kwargs or style in ("kwargs", "return") or t.get("force_decorator"):
             L.append("@task(" + ", ".join(deco_kwargs) + ")")
         L.append(f"def {tname(tid)}({', '.join(params)}):")
-        body_deps = [nm for nm, n in zip(dep_names, deps)]
+        # the body of a load-fault task does not read the faulty dependency: were the function invoked in spite of the
+        # failing load, it would run to completion (and the oracle would see a fired fault without a FAIL report)
+        body_deps = [nm for nm, n in zip(dep_names, deps) if not (beh == "loadfail" and n == faulty_dep)]
         L.append(f"    return rt.body({tid}, SRC, [{', '.join(body_deps)}], {body_prods}, {body_beh!r}, ret={ret!r})")
         L.append("")
     return "\n".join(L) + "\n"
